@@ -196,6 +196,7 @@ private:
 
                 if( isdigit( ch ))
                 {
+                    io_error_if( k >= sizeof( buf ) - 1, "Number too long in pnm file." );
                     buf[ k++ ] = static_cast< char >( ch );
                 }
                 else if( k )
